@@ -232,13 +232,13 @@ def gen_until(r, comp, **kw):
 
 
 def nontrivial(c):
-    return any(len(G.dedup(l)) >= 2 for l in c["groups"]) or len(c["groups"]) >= 2
+    return any(isinstance(l, list) and len(G.dedup(l)) >= 2 for l in c["groups"]) or len(c["groups"]) >= 2
 
 
 def case_key(c):
     p = c.get("params", {})
     return "%s/pbc%d/cell%d/%s/%s" % (c["comp"], c.get("pbc", 1), 1 if c.get("cell") else 0,
-                                      ",".join("%s=%s" % (k, p[k]) for k in sorted(p)), ";".join(" ".join(map(str, l)) for l in c["groups"]))
+                                      ",".join("%s=%s" % (k, p[k]) for k in sorted(p)), ";".join(" ".join(map(str, l)) if isinstance(l, list) else "dummy%s" % l["dummy"] for l in c["groups"]))
 
 
 # ---- reference-based (unmodelled) components: rmsd, eigenvector, orientation*, tilt, spinAngle, euler*
@@ -424,7 +424,23 @@ def check(run):
         for c in cs:
             c["coeff"] = r.choice([1.0, -1.0, 2.0, 0.5, -0.25, 3.0])
             c["exp"] = r.choice([1, 1, 2, 3, -1, -2, 0])
+        if r.random() < 0.3:
+            cs[0]["wrap"] = "linearCombination"     # uses pow(): keep away from 0^negative (a switching function can be exactly 0)
+            for c in cs:
+                c["exp"] = abs(c["exp"])
         tie_cases.append(cs)
+    # a dummy atom (fixed position) in place of one group of a centre-based component
+    for k in range(20 * scale):
+        comp = r.choice(["distance", "distanceVec", "distanceDir", "distanceZ", "distanceXY", "angle", "dihedral"])
+        for _ in range(50):
+            c = gen_case(r, comp, generic=(k % 3 == 2), dup=0.1)
+            if c is None:
+                continue
+            gi = 1 if comp in ("distanceZ", "distanceXY") else r.randrange(len(c["groups"]))
+            c["groups"][gi] = {"dummy": [V.dyadic(r, -5, 5) for _ in range(3)]}
+            if well_conditioned(c):
+                tie_cases.append([c])
+                break
     for cs in tie_cases:
         i = impl.add(G.impl_line(cs)); m = mod.add(G.model_line(cs))
         jobs.append(("tie", cs, i, m))
@@ -734,6 +750,19 @@ def meta_of_case(r, c):
                     desc.append("%s by %s" % (ids, n))
             if desc:
                 variants.append({"line": G.pos_line(moved), "rel": ("same", 1e-9), "what": "lattice translation of " + "; ".join(desc)})
+    # the same atoms selected twice through two keywords (atomNumbers + atomNumbersRange)
+    for gi, l in enumerate(c["groups"]):
+        ids = sorted(set(l))
+        runs = [(a, b) for a, b in zip(ids, ids[1:]) if b == a + 1]
+        if runs and comp != "hBond":
+            a, b = r.choice(runs)
+            c2 = dict(c); ge = dict(c.get("group_extra") or {})
+            key = G.GROUPKEYS[comp][gi]
+            ge[key] = list(ge.get(key, [])) + ["atomNumbersRange %d-%d" % (a, b)]
+            c2["group_extra"] = ge
+            variants.append({"line": G.impl_line([c2]), "rel": ("same", 0.0),
+                             "what": "group %d listed with a duplicate selection atomNumbersRange %d-%d" % (gi + 1, a, b)})
+            break
     # permutation of the listing, duplicate listing (new configuration)
     for mode in ("perm", "dup"):
         c2 = dict(c); gl = [list(l) for l in c["groups"]]
